@@ -354,5 +354,6 @@ def run_replay(path: str) -> int:
         print(f"  signature: {signature}\n  message: {message[:3000]}")
         status = 1
     if status == 0:
-        print(f"[{pid}] replay {path}: {out.status} labels={out.labels}")
+        verdict = "known-finding only" if out.status == "violation" else out.status
+        print(f"[{pid}] replay {path}: {verdict} labels={out.labels}")
     return status
